@@ -279,6 +279,14 @@ where
                             }
                             return Ok(());
                         }
+                        if std::env::var("VERIF_EXPLORE").is_ok() {
+                            if !shrinking {
+                                let mut l = localc.borrow_mut();
+                                let e = l.extra.entry(format!("explore:{}", f.signature)).or_insert(json!({"n": 0, "what": f.what, "case": serde_json::to_value(&v).unwrap_or(Value::Null)}));
+                                e["n"] = json!(e["n"].as_u64().unwrap_or(0) + 1);
+                            }
+                            return Ok(());
+                        }
                         failed.store(true, Ordering::Relaxed);
                         return Err(TestCaseError::fail(f.signature.clone()));
                     }
